@@ -3,6 +3,7 @@ package peersdrv
 import (
 	"fmt"
 	"os"
+	"sync/atomic"
 	"testing"
 
 	"verifharness/vh"
@@ -11,6 +12,7 @@ import (
 // Plan is written by checks/C17.py (from TLC's output) to $VERIF_PLAN.
 type Plan struct {
 	Pool      *PoolPlan    `json:"pool,omitempty"`      // atomic paths through the state graph of PoolAtomic.cfg
+	Pool2     *PoolPlan    `json:"pool2,omitempty"`     // ... of PoolAtomicWake.cfg (two callers: wake-ups, cancellation)
 	Witness   []Scenario   `json:"witness,omitempty"`   // atomic counterexamples of model variants WITHOUT a fix
 	Fine      []Scenario   `json:"fine,omitempty"`      // fine-grained counterexamples (deadlock) of such variants
 	Manager   *ManagerPlan `json:"manager,omitempty"`   // paths through the state graph of PeerManager
@@ -38,6 +40,9 @@ func TestDriver(t *testing.T) {
 	if plan.Pool != nil {
 		runPoolPaths(rep, plan.Pool)
 	}
+	if plan.Pool2 != nil {
+		runPoolPaths(rep, plan.Pool2)
+	}
 	for _, sc := range plan.Witness {
 		runWitness(rep, sc)
 	}
@@ -58,10 +63,15 @@ func TestDriver(t *testing.T) {
 	}
 }
 
+var notWoken atomic.Int32
+
 func runPoolPaths(rep *vh.Report, pp *PoolPlan) {
 	mo := &monitor{rep: rep, ctx: "pool-replay"}
 	drift := 0
 	for pi, path := range pp.Paths {
+		if notWoken.Load() >= 3 {
+			break // every further occurrence costs a watchdog period; the violation is recorded
+		}
 		var res pathResult
 		before := mo.hits
 		replayObj := map[string]any{"kind": "pool-atomic-path", "ttl": pp.TTL, "cleanup": pp.Cleanup, "path": path}
